@@ -274,18 +274,78 @@ def r19_6(ctx):
     for name, bl in stages:
         if len(bl) != 1:
             raise core.CheckerError("R19.6: expected exactly one %s lookup in receive, found %d" % (name, len(bl)))
+    # the optional keys of the stages: a later stage may depend on `selected` and on its OWN key, never on whether the
+    # packet carried an earlier stage's key (a packet with an unknown RID still has to be routed by its MID). Plain
+    # CFG reachability cannot see that `rid_bytes.is_none()` is false after the RID lookup, so the walk from one stage
+    # to the next refuses every branch that tests an earlier stage's key.
+    KEYS = {"RID": ("rid_bytes", "rid_extension_id"), "MID": ("mid_bytes", "sdes_mid_extension_id")}
+
+    def mentions(term, keys):
+        # the key is a single-definition local, so it usually appears inlined as its defining expression
+        return mir.has(term, lambda z: (z[0] == "var" and any(z[1] == k[0] for k in keys)) or
+                       (z[0] == "field" and any(z[2] == k[1] for k in keys)))
+    order = [n for n, _ in stages]
+
+    def key_switch_edges(names, want_present):
+        """edges of branches on an earlier stage's key that contradict `key present` (want_present) / `key absent`"""
+        out = set()
+        for sb in range(len(b.blocks)):
+            if sb in b.cleanup or b.blocks[sb]["t"]["k"] != "switch":
+                continue
+            term, outs = b.switch_info(sb)
+            if not mentions(term, names):
+                continue
+            t, neg = term, False
+            while t[0] == "un" and t[1] == "Not":
+                t, neg = t[2], not neg
+            for tgt, _, m in outs:
+                present = None          # what taking this edge says about the key
+                if t[0] == "discr" and t[2].endswith("option::Option") and m in ("Some", "None"):
+                    present = (m == "Some")
+                elif t[0] == "call" and t[1].endswith(("Option::<T>::is_none", "Option::<T>::is_some")) and isinstance(m, bool):
+                    present = (m != neg) == t[1].endswith("is_some")
+                else:
+                    present = True      # a test on the key's content only happens when it is there
+                if present != want_present:
+                    out.add((sb, tgt))
+        return out
     for (n1, b1), (n2, b2) in zip(stages, stages[1:]):
         x, y = b1[0], b2[0]
-        fwd = y in b.reachable([t for t, _ in b.succ_edges(x)], cut_edges=b.back_edges())
+        earlier = {KEYS[n] for n in order[:order.index(n2)] if n in KEYS}
+        cut = set(b.back_edges()) | key_switch_edges(earlier, True)
+        fwd = y in b.reachable([t for t, _ in b.succ_edges(x)], cut_edges=cut)
         back = x in b.reachable([t for t, _ in b.succ_edges(y)], cut_edges=b.back_edges())
         if fwd and not back:
-            r.ok({"stage": "%s -> %s" % (n1, n2), "at": "%s -> %s" % (b.where(x), b.where(y))})
+            r.ok({"stage": "%s -> %s" % (n1, n2), "at": "%s -> %s" % (b.where(x), b.where(y)),
+                  "walk": "no branch on %s taken" % sorted(k[0] for k in earlier) if earlier else "plain"})
         elif not fwd:
             r.violate(RECV, "demux:%s->%s" % (n1, n2), b.where(x),
-                      "after the %s lookup the %s lookup can no longer be reached: a packet whose %s is unknown skips %s routing "
-                      "and falls to a later, weaker stage" % (n1, n2, n1, n2))
+                      "after the %s lookup the %s lookup can only be reached through a branch on %s (or not at all): a packet whose %s is "
+                      "unknown skips %s routing and falls to a later, weaker stage" % (n1, n2, sorted(k[0] for k in earlier) or "-", n1, n2))
         else:
             r.violate(RECV, "demux:%s->%s" % (n1, n2), b.where(x), "%s lookup no longer precedes the %s lookup" % (n1, n2))
+    # ... and a packet WITHOUT the earlier key reaches the next stage too: from the "key absent" edge, same walk
+    for n1, n2 in zip(order, order[1:]):
+        if n1 not in KEYS:
+            continue
+        k = KEYS[n1]
+        absent = []
+        for sb in range(len(b.blocks)):
+            if sb in b.cleanup or b.blocks[sb]["t"]["k"] != "switch":
+                continue
+            term, outs = b.switch_info(sb)
+            if term[0] == "discr" and term[2].endswith("option::Option") and mentions(term[1], {k}):
+                absent += [(sb, tgt) for tgt, _, m in outs if m == "None"]
+        if not absent:
+            raise core.CheckerError("R19.6: cannot find the `%s` absent edge" % k[0])
+        y = dict(stages)[n2][0]
+        earlier = {KEYS[n] for n in order[:order.index(n2)] if n in KEYS}
+        cut = (set(b.back_edges()) | key_switch_edges({k}, False) | key_switch_edges(earlier - {k}, True)) - set(absent)
+        if any(y in b.reachable([tgt], cut_edges=cut) for _, tgt in absent):
+            r.ok({"stage": "no %s -> %s" % (n1, n2)})
+        else:
+            r.violate(RECV, "demux:no-%s->%s" % (n1, n2), b.where(absent[0][0]),
+                      "a packet without a %s extension cannot reach the %s lookup" % (n1, n2))
     return r
 
 
